@@ -162,7 +162,7 @@ def tiny_direct_games():
 
 
 def tiny_cases():
-    for g in games.tiny_reach_games():
+    for g in list(games.tiny_reach_games()) + list(games.dup_edge_games()):
         for route in ("prune", "batch"):
             yield dict(game=g, route=route)
     for g in tiny_direct_games():
